@@ -381,4 +381,40 @@ theorem mapSpec_filterSpec {α β} (f : α → β) : ∀ (m : List Bool) (c : Li
 example : mapSpec (· + 1) (sliceSpec 1 2 [1, 2, 3, 4]) = [3, 4] := by decide
 example : takeSpec [2, 0] [10, 20, 30] = some [30, 10] := by decide
 
+
+/-! ## Source ties -/
+
+open ArrowModel.Generated.C02 in
+/-- **Shape ties to `/repo`** (regenerated by `tools/translate.py` on every run from
+`tools/items/C02.py`): the guard, index and operand expressions of `arrow-data/src/equal/*` and of
+`ArrayData::slice` that `Model.lean` mirrors are still spelled as they were when the model was
+written — the `boolean_equal` fast-path guard over all four of `lhs_start, rhs_start, lhs.offset(),
+rhs.offset()` and its byte indexing `start / 8 + offset / 8`, the four cases of `equal_nulls`,
+`contains_nulls`, the three paths of `primitive_equal`, `byte_view_equal`'s null test at
+`lhs_start + idx` and inline limit 12, which start/offset struct / fixed-size-list / list /
+dictionary parents pass to their children, and the Struct case of `ArrayData::slice`.  An edit to
+any of them makes the item LOST and this theorem false. -/
+theorem source_shape_ties :
+    NULL_SLICES_SELECTIVITY_THRESHOLD_lost = false ∧
+    (BOOL_FAST_PATH_GUARD_lost = false ∧ BOOL_FAST_PATH_GUARD = 8) ∧
+    (BOOL_FAST_PATH_INDEX_lost = false ∧ BOOL_FAST_PATH_INDEX = 8) ∧
+    (BOOL_SUFFIX_lost = false ∧ BOOL_SUFFIX = 8) ∧
+    (BOOL_NULL_PATH_lost = false ∧ BOOL_NULL_PATH = 2) ∧
+    (EQUAL_NULLS_CASES_lost = false ∧ EQUAL_NULLS_CASES = 2) ∧
+    (CONTAINS_NULLS_SHAPE_lost = false ∧ CONTAINS_NULLS_SHAPE = 0) ∧
+    (EQUAL_TOP_lost = false ∧ EQUAL_TOP = 0) ∧
+    (PRIM_BASE_lost = false ∧ PRIM_BASE = 0) ∧
+    (PRIM_NO_NULLS_lost = false ∧ PRIM_NO_NULLS = 2) ∧
+    (PRIM_SWITCH_lost = false ∧ PRIM_SWITCH = 2) ∧
+    (PRIM_DENSE_lost = false ∧ PRIM_DENSE = 2) ∧
+    (PRIM_SPARSE_lost = false ∧ PRIM_SPARSE = 2) ∧
+    (VIEW_NULL_INDEX_INLINE_lost = false ∧ VIEW_NULL_INDEX_INLINE = 12) ∧
+    (STRUCT_CHILD_START_lost = false ∧ STRUCT_CHILD_START = 1) ∧
+    (FSL_CHILD_START_lost = false ∧ FSL_CHILD_START = 2) ∧
+    (LIST_REBASE_lost = false ∧ LIST_REBASE = 2) ∧
+    (DICT_KEYS_lost = false ∧ DICT_KEYS = 1) ∧
+    (VAR_OFFSETS_lost = false ∧ VAR_OFFSETS = 1) ∧
+    (SLICE_STRUCT_lost = false ∧ SLICE_STRUCT = 2) := by
+  decide
+
 end ArrowModel.C02
